@@ -4,7 +4,7 @@ import random
 import e2e
 from props import C01 as _c01
 
-GEN_FILES = ["SolveBrute.v", "EntryPoint.v"]
+GEN_FILES = ["SolveBrute.v", "EntryPoint.v", "StateSpaceGlue.v", "ChoiceAxes.v"]
 TRUSTED = e2e.TRUSTED
 ASSUMPTIONS = e2e.ASSUMPTIONS + ["grid sizes are generated pairwise different so that any transposition of axes changes the shape or the content"]
 
